@@ -140,6 +140,15 @@ Proof.
     destruct (s_token (P_chr sep) (valof s v) start). cbn [fst] in *. apply WF_pushval; auto.
   - pose proof (B_token (P_any seps) (valof s v) start (WF_valof s v W)) as T.
     destruct (s_token (P_any seps) (valof s v) start). cbn [fst] in *. apply WF_pushval; auto.
+  - apply B_app; auto using WF_valof. repeat constructor; auto.
+  - apply B_app; auto using WF_valof.
+  - destruct W as (HV & HR). split; cbn; apply Forall_app; split; auto; repeat constructor.
+    + apply B_app; auto. apply (WF_valof s v (conj HV HR)).
+    + apply B_app; auto. repeat constructor.
+  - destruct W as (HV & HR). split; cbn; apply Forall_app; split; auto; repeat constructor.
+    + destruct b; repeat constructor.
+    + destruct b; repeat constructor.
+  - apply B_firstn; auto.
 Qed.
 
 Lemma spec_run_WF : forall ops s s' outs, WF s -> spec_run s ops = Some (s', outs) -> WF s'.
